@@ -14,7 +14,7 @@ def positions(ctx, n, extra_seed=0):
     for l in out.strip().split('\n'):
         p = l.split('\t')
         if len(p) == 5:
-            placement = p[4].split(' ')[0]
+            placement = p[4].split(' ')[0] if not p[4].startswith('startpos') else ''
             # the extracted model searches ~3k nodes/s: keep quiescence trees small (few queens) for everything it must search too
             if placement.count('q') > 2 or placement.count('Q') > 2:
                 continue
@@ -22,7 +22,14 @@ def positions(ctx, n, extra_seed=0):
     return res
 
 
+def pos_cmd(start):
+    """UCI position command for a FEN or a 'startpos [moves ...]' string"""
+    return 'position ' + start if start.startswith('startpos') else 'position fen ' + start
+
+
 def depth_for(pos, quick):
+    if quick and pos.get('src', '').startswith('promo'):
+        return 2
     if pos['men'] <= 6:
         return 4 if not quick else 3
     if pos['men'] <= 12:
@@ -87,7 +94,7 @@ def run_jobs(jobs, workers=8, per_job_timeout=120, fresh_process_each=False):
                 e.kill()
                 e = None
                 continue
-            e.send('position fen ' + j.fen if j.fen != 'startpos' else 'position startpos')
+            e.send(pos_cmd(j.fen))
             n0 = len(e.lines)
             t = time.time()
             e.send(j.go)
